@@ -67,7 +67,7 @@ def o1_scalar(h):
     c.prove('fb', spec, order=('nlsat', 'core'), denoms=False)
 
 
-def _instance(CO, cls=None):
+def _instance(CO, affine=False):
     """2 variables, 2 inequality constraints (one affine, one non-linear), general quadratic + cubic objective; all
     coefficients are traced parameters"""
     import jax.numpy as jnp
@@ -77,6 +77,14 @@ def _instance(CO, cls=None):
 
     def con(x, p):
         return jnp.array([x[0] - p[6], p[7] - x[0] * x[1]])
+
+    def con_affine(x, p):
+        return jnp.array([x[0] - p[6], p[7] - x[0] - p[5] * x[1]])
+
+    def obj_quadratic(x, p):
+        return 0.5 * (p[0] * x[0] * x[0] + p[1] * x[1] * x[1]) + p[2] * x[0] * x[1] + p[3] * x[0] + p[4] * x[1]
+    if affine:
+        return obj_quadratic, con_affine
     return obj, con
 
 
@@ -103,7 +111,7 @@ def o1_instance(h):
              'x, lam: all reals; kappa > 0; tol > 0: all reals')
     h.assume_note('the instance (objective/constraint callables) is the harness\'s; every method evaluated is the real ConstrainedObjective\'s',
                   'norm(r) < tol is stated as r.r < tol^2 with tol > 0 (the square root is taken by AlSolver.norm, see O4)')
-    obj, con = _instance(CO)
+    obj, con = _instance(CO, affine=True)
 
     def F(x, p, lam, kappa, tol):
         o = CO.ConstrainedObjective(obj, con, x, p, lam, kappa)
@@ -138,7 +146,7 @@ def o1_instance(h):
             ats.append(Lt(v_sub(0.0, tol), lam[k], name='multiplier_%d_above_minus_tol' % k, scale=tol))
             ats.append(Lt(v_min(a, lam[k]), v_mul(2.0, tol), name='complementarity_%d_min_below_2tol' % k, scale=tol))
         return asm, ats
-    c.prove('kkt', spec, cap=120, order=('core', 'nlsat'), denoms=False)
+    c.prove('kkt', spec, cap=120, order=('nlsat', 'core'), denoms=False)
 
 
 # =========================================================================================== O3: AL penalty (JX)
